@@ -336,5 +336,6 @@ func (b *Buffer) UnmarshalBinary(data []byte) error {
 	n := copy(b.b, data)
 	b.b = b.b[:n]
 	b.off = 0
+	b.Err = nil
 	return nil
 }
